@@ -315,13 +315,32 @@ pub fn run(tier: Tier) -> Report {
             let _ = std::fs::remove_file(p);
         }
     });
-    // unreadable file: error message and non-zero status
+    // unreadable input: error message and non-zero status — for every way a file can be unreadable
+    // (does not exist; opens but cannot be read: a directory; readable up to a line that is not UTF-8),
+    // alone and as the second of two files
+    let good = wd.join("readable.txt");
+    std::fs::write(&good, "55 12\n56 13\n").unwrap();
+    let bad_utf8 = wd.join("not_utf8.txt");
+    std::fs::write(&bad_utf8, b"55 12\n56 \xff\xfe 13\n57 14\n").unwrap();
+    let a_dir = wd.join("a_directory");
+    let _ = std::fs::create_dir_all(&a_dir);
     for op_def in [operations[0], operations[1]] {
-        rep.eval(1);
-        let args = vec![op_def.to_string(), wd.join("no_such_file.txt").to_string_lossy().to_string()];
-        if let Ok(run) = run_kp(&wd, &args, None) {
-            if run.status == Some(0) || run.stderr.trim().is_empty() || run.status == Some(101) || run.status.is_none() {
-                rep.violation("unreadable file does not end with an error message and a (non-panic) non-zero status", json!({"operation": op_def, "status": run.status, "stderr": run.stderr.chars().take(200).collect::<String>()}));
+        for (kind, path) in [("missing file", wd.join("no_such_file.txt")), ("directory", a_dir.clone()), ("line that is not UTF-8", bad_utf8.clone())] {
+            for second in [false, true] {
+                rep.eval(1);
+                let mut args = vec![op_def.to_string()];
+                if second {
+                    args.push(good.to_string_lossy().to_string());
+                }
+                args.push(path.to_string_lossy().to_string());
+                if let Ok(run) = run_kp(&wd, &args, None) {
+                    if run.status == Some(0) || run.stderr.trim().is_empty() || run.status == Some(101) || run.status.is_none() {
+                        rep.violation(
+                            &format!("unreadable file does not end with an error message and a (non-panic) non-zero status / {kind}"),
+                            json!({"operation": op_def, "unreadable": kind, "as_second_file": second, "status": run.status, "stderr": run.stderr.chars().take(200).collect::<String>(), "stdout": run.stdout.chars().take(200).collect::<String>()}),
+                        );
+                    }
+                }
             }
         }
     }
